@@ -172,6 +172,17 @@ def run(rep):
         rep.hist('box.order', p)
         rep.hist('box.nf', nf)
         rep.hist('box.log10_ratio', int(math.floor(math.log10(ratio))))
+    # the same (p, as0, r20, r2) for every nf, and the same (nf, …) for both orders, in one session:
+    # a memo keyed on part of the arguments shows only when the others are repeated
+    for _ in range(60 * mult):
+        p0, nf0, as0, r20, ratio = box_case(rng)
+        r2 = r20 * ratio
+        combos = [(p, nf) for p in (0, 1) for nf in (3, 4, 5, 6)]
+        rng.shuffle(combos)
+        for p, nf in combos:
+            impl = call(qcd, p, nf, r2, as0, r20)
+            lines.append('c15.as2pf %d %s %s %s %s' % (p, f2hex(nf), f2hex(r2), f2hex(as0), f2hex(r20)))
+            meta.append(dict(kind='as2pf.box', p=p, nf=nf, r2=r2, as0=as0, r20=r20, impl=impl))
     # reference scale exactly
     for p in (0, 1):
         for nf in (3, 4, 5, 6):
